@@ -326,7 +326,10 @@ Section WithStream.
         if s_lost s then (s, []) else
         let cur := pred (length (s_rq s)) in
         (mkSt (s_rq s) (s_handling s) (s_inchan s) (s_recv s) (s_cons s) false (s_cprod s) (s_closing s) (s_lost s),
-         (if s_cprod s then [EProdResume cur] else []) ++ (if s_handling s then [] else [ENetResume]))
+         (* repaired (fixes/C21-resume-reading-after-transport-resume.patch): reading is resumed also while a request is
+            handled, unless the eager-read limit holds it back - it may still be paused from an earlier request *)
+         (if s_cprod s then [EProdResume cur] else []) ++
+         (if s_handling s && (eager <? s_recv s - s_cons s)%N then [] else [ENetResume]))
     | Lose => lose0 s
     | App i a =>
         match app_simple i a s with
